@@ -1,6 +1,7 @@
 import PxModel.Exec
 import PxProofs.ExecLemmas
 import PxProofs.C05
+import PxProofs.ExecRemoteLemmas
 /-!
 # C10 — every connection's resources are released exactly once, however it ends
 
@@ -115,5 +116,50 @@ theorem C10_alloc_lowest_free (k : Kernel) :
 example : ∃ y log, runOnce (fresh ⟨[5, 6], []⟩)
       { beh := fun _ => ⟨.ok [(5, 1)], .tru, [], ⟨[5], true⟩⟩, ready := [], arrive := some ⟨5, false⟩, prio := [] }
       = .ok (y, log) ∧ y.works = [5] := ⟨_, _, rfl, rfl⟩
+
+/-! ## Remote executors: the raw descriptor received from the acceptor
+
+A remote worker owns the raw descriptor `recv_handle` gave it and must
+`os.close()` it exactly once, whichever way the work ends — including a work
+whose `initialize()` raised.  (`PxModel/ExecRemote.lean`; tied to the real
+`RemoteFdExecutor` by the `remote` cases of `harness/c10.py`.) -/
+
+/-- **C10 remote release.**  A successful `_cleanup` closes the work's raw
+descriptor — it is no longer owned afterwards, every other owned descriptor
+stays owned — and keeps "owned raw descriptors = ids of live works, each once". -/
+theorem C10_remote_release (x y : RExec) (w : WorkId) (sd : Shutdown) (hi : RInv x)
+    (h : cleanupR x w sd = .ok y) : w ∉ y.raw ∧ y.raw = x.raw.erase w ∧ RInv y :=
+  let r := cleanupR_inv x y w sd hi h; ⟨r.2.1, r.2.2, r.1⟩
+
+/-- **C10 remote, failing `initialize()`.**  A connection whose `initialize()`
+raises leaves the set of owned raw descriptors exactly as it was before the
+connection arrived: its descriptor was closed on the spot. -/
+theorem C10_remote_init_failure (x y : RExec) (a : Arrive) (sd : Shutdown) (hi : RInv x)
+    (hnew : a.fd ∉ x.ex.works) (hr : a.initRaises = true) (h : acceptR x a sd = .ok y) :
+    y.raw = x.raw ∧ RInv y :=
+  let r := acceptR_inv x y a sd hi hnew h; ⟨r.2.1 hr, r.1⟩
+
+/-- **C10 remote, every history.**  After ANY sequence of arrivals (with or
+without initialize failure) and clean-ups that the executor survives, the raw
+descriptors still open are exactly those of the works still alive; once no
+work is left, none is. -/
+theorem C10_remote_no_leak (x0 : Exec) (h0 : x0.works = []) (ops : List ROp) (y : RExec)
+    (hok : ROpsOk ⟨x0, []⟩ ops) (h : runR ⟨x0, []⟩ ops = .ok y) :
+    (∀ f, f ∈ y.raw ↔ f ∈ y.ex.works) ∧ y.raw.Nodup ∧ (y.ex.works = [] → y.raw = []) := by
+  have hi : RInv ⟨x0, []⟩ := ⟨List.nodup_nil, by intro f; simp [h0]⟩
+  have hy := runR_inv ops _ y hi hok h
+  refine ⟨hy.2, hy.1, ?_⟩
+  intro hw
+  cases hr : y.raw with
+  | nil => rfl
+  | cons f l =>
+    have := (hy.2 f).1 (by rw [hr]; exact List.mem_cons_self)
+    rw [hw] at this; cases this
+
+/-- non-vacuity: an arrival that fails to initialize between two that do not, then one clean-up -/
+example : (runR ⟨fresh ⟨[5, 6, 7], []⟩, []⟩
+    [.arrive ⟨5, false⟩ ⟨[], false⟩, .arrive ⟨6, true⟩ ⟨[6], true⟩, .arrive ⟨7, false⟩ ⟨[], false⟩,
+     .clean 5 ⟨[5], false⟩]).toOption.map (·.raw) = some [7] := by
+  decide +kernel
 
 end Px.Exec
